@@ -38,6 +38,8 @@ def correspond(ctx):
             p.update({"kind": "fried", "nx": 6, "extra": 2, "ps": 1, "r0": 1.0, "L0": 30.0})      # integer pixel scale (metres per pixel)
         if k == 1:
             p.update({"kind": "vk", "nx": 6, "extra": 2, "ps": 2, "r0": 1.5, "L0": 25.0})
+        if k == 2:
+            p.update({"kind": "vk", "nx": 5, "extra": 2, "ps": 3.14159e-5, "r0": 9.3e-5, "L0": 6.1e-3})     # 31 micron pixels
         gen = ic.ScriptedGenerator(rng.getrandbits(30))
         try:
             with ic.Recorders() as rec:
@@ -118,6 +120,17 @@ def checks_for_screen(s, p, A, tag):
     cond = numpy.linalg.cond(Czz)
     tolA = 3e-7 * cond + 1e-5          # binary32 covariance entries amplified by the conditioning of Cov_zz
     A(("A Cov_zz = Cov_xz%s" % tag, rel(s.A_mat @ Czz, Cxz), tolA))
+    # the same two identities on the covariance blocks the screen itself holds (binary32 values, float64 algebra): here the
+    # only error is that of the float64 factorisations, far below any change of the matrices that are inverted / factorised
+    oz, ox, ozx, oxz = [numpy.asarray(m_, dtype=float) for m_ in (s.cov_mat_zz, s.cov_mat_xx, s.cov_mat_zx, s.cov_mat_xz)]
+    co = numpy.linalg.cond(oz)
+    tolO = 1e-12 * co + 1e-9
+    # ... and those blocks are the theoretical covariance at the TRUE pixel separations (binary32 storage: 6e-8 relative)
+    A(("the screen's covariance blocks are the von Karman covariance at the true separations%s" % tag,
+       float(max(numpy.abs(oz - Czz).max(), numpy.abs(ox - Cxx).max(), numpy.abs(oxz - Cxz).max(), numpy.abs(ozx - Czx).max()) / var), 2e-6))
+    A(("A Cov_zz = Cov_xz on the screen's own blocks%s" % tag, rel(s.A_mat @ oz, oxz), tolO))
+    A(("A Cov_zz A^T + B B^T = Cov_xx on the screen's own blocks%s" % tag,
+       float(numpy.max(numpy.abs(s.A_mat @ oz @ s.A_mat.T + s.B_mat @ s.B_mat.T - ox)) / float(ox.max())), tolO))
     A(("A Cov_zz A^T + B B^T = Cov_xx%s" % tag, float(numpy.max(numpy.abs(s.A_mat @ Czz @ s.A_mat.T + s.B_mat @ s.B_mat.T - Cxx)) / var), tolA))
     # affine in (Z, b), through the public interface with an injected generator
     gen = s._R
@@ -184,6 +197,8 @@ def falsify(ctx, deep=False):
             p.update({"kind": "fried", "nx": 6, "extra": 2, "ps": 1, "r0": 1.0, "L0": 30.0})       # integer pixel scale
         if k == 3:
             p.update({"kind": "vk", "nx": 6, "extra": 2, "ps": 2, "r0": 1.5, "L0": 25.0})
+        if k == 4:
+            p.update({"kind": "fried", "nx": 5, "extra": 2, "ps": 3.14159e-5, "r0": 9.3e-5, "L0": 6.1e-3, "family": False})
         try:
             res = property_checks(p)
         except Exception as ex:
